@@ -3,6 +3,7 @@ package uePolicyContainer
 import (
 	"bytes"
 	"encoding/binary"
+	"fmt"
 	"io"
 )
 
@@ -104,6 +105,9 @@ func parseInstruction(buf *bytes.Buffer) (*Instruction, error) {
 		return nil, err
 	}
 	// Ue policy section contents
+	if instruction.Len < 2 {
+		return nil, fmt.Errorf("Instruction length should not be less than 2")
+	}
 	if err := instruction.UEPolicySectionContents.UnmarshalBinary(buf.Next(int(instruction.Len) - 2)); err != nil {
 		return nil, err
 	}
